@@ -74,6 +74,17 @@ class Harness(object):
         self.gates[token].wait()
         return token
 
+    def waitpeer(self, token):
+        # a request that completes only once another client's request has been executed: with a free worker in the pool, that one is served meanwhile
+        self.execs[token] = self.execs.get(token, 0) + 1
+        self.gates["peer"].wait()
+        return token
+
+    def openpeer(self, token):
+        self.execs[token] = self.execs.get(token, 0) + 1
+        self.gates["peer"].set()
+        return token
+
     # -- clients ----------------------------------------------------------------------
     def url(self):
         return "http://srv.test:8080/" if self.family == "tcp" else "unix+http://" + UNIX_ADDR
@@ -144,6 +155,8 @@ class Harness(object):
                         self.results[key] = ("val", "no error")
                     except jsonrpclib.ProtocolError as ex:
                         self.results[key] = ("protocol-error", ex.args[0][0] if ex.args and isinstance(ex.args[0], tuple) else None, str(ex))
+                elif kind in ("waitpeer", "openpeer"):
+                    self.results[key] = ("val", getattr(p, kind)(tok))
                 elif kind == "nap":
                     self.results[key] = ("val", p.nap(tok))
                 elif kind == "longnap":
@@ -169,6 +182,8 @@ class Harness(object):
             for ri, kind in enumerate(prog):
                 if kind == "slow":
                     self.gates["c%d-r%d" % (ci, ri)] = sched.Event()
+                if kind == "waitpeer":
+                    self.gates["peer"] = sched.Event()
         cfg = Config()
         addr = TCP_ADDR if self.family == "tcp" else UNIX_ADDR
         fam = SS.socket.AF_INET if self.family == "tcp" else SS.socket.AF_UNIX
@@ -185,6 +200,8 @@ class Harness(object):
         srv.register_function(self.echo, "echo")
         srv.register_function(self.fail, "fail")
         srv.register_function(self.slow, "slow")
+        srv.register_function(self.waitpeer, "waitpeer")
+        srv.register_function(self.openpeer, "openpeer")
         srv.register_function(self.sysexit, "sysexit")
         srv.register_function(self.nap, "nap")
         srv.register_function(self.longnap, "longnap")
@@ -298,7 +315,7 @@ class Harness(object):
                     if not inflight:
                         v.append(("C12/request-failed-on-a-serving-server/%s" % kind, "%s raised %s: %s" % (where, res[1], res[2])))
                     continue
-                if kind in ("call", "slow", "nap", "longnap"):
+                if kind in ("call", "slow", "nap", "longnap", "waitpeer", "openpeer"):
                     if res != ("val", tok):
                         v.append(("C12/reply-is-not-the-response-to-this-request", "%s got %r, expected %r" % (where, res, tok)))
                     if self.execs.get(tok, 0) != 1:
@@ -382,6 +399,9 @@ def extra_harnesses(tier):
             h.append(spec(server, pool, family, (("longnap", "call"),), "normal") + (1,))
     h.append(spec("pooled", (2, 0), "unix", ((("call", "nap"),) * 12), "normal") + (0, {"F": 0}))
     h.append(spec("pooled", (1, 0), "tcp", ((("nap",),) * 3), "normal") + ((1 if tier == "thorough" else 0),))
+    # a request that waits for another client's request: a pool with room for two serves the second while the first waits
+    for pool in ((2, 0), (2, 1), None):
+        h.append(spec("pooled", pool, "tcp", (("waitpeer",), ("openpeer",)), "normal") + (1,))
     return h
 
 
@@ -438,7 +458,7 @@ META = {
     "serial_legs": ("schedules",),
     "technique": "stateless model checking of the real servers, request handler and clients over an in-memory network whose blocking operations are "
     "scheduling points: exhaustive schedule enumeration with iterative preemption bounding, non-termination decided by the scheduler's deadlock verdict",
-    "rule": "additionally: two servers of the same kind alive at once (the first is closed, the second must still answer); a method taking 40 virtual seconds over TCP and Unix sockets (socket timeouts are honoured in virtual time); servers next to a second started pool (their notification pool), 140 (thorough 35/70/140/200) simultaneous clients of a slow method on "
+    "rule": "additionally: a request that completes only after another client's request has run, on pooled servers with room for two workers ((2,0), (2,1), default pool), every schedule with 1 preemption; two servers of the same kind alive at once (the first is closed, the second must still answer); a method taking 40 virtual seconds over TCP and Unix sockets (socket timeouts are honoured in virtual time); servers next to a second started pool (their notification pool), 140 (thorough 35/70/140/200) simultaneous clients of a slow method on "
     "the default request pool, 40 on a plain server, 12 x (call, slow call) on a (2,0) pool over Unix sockets - default hand-over order at blocking points (F=0), no preemption; 3 clients of the slow method on a (1,0) pool with the ordinary ladder; harness = server (Simple, Pooled with default pool (30,0) or user pools (1,1) (1,0) (2,0)) x listener (TCP, Unix) x client programs (1-2 clients "
     "(thorough 3), 1-2 requests each from {call, notification, batch, malformed body, truncated body with half-close, failing method, method raising SystemExit, gated slow method}) x life-cycle (serve/shutdown/"
     "server_close, server_close without serving, double shutdown and close, shutdown with a gated request in flight); every schedule up to the per-harness "
